@@ -30,13 +30,14 @@ pub fn run(ctx: &mut Ctx) {
         let nstate = rng.range(1, 7);
         let nlab = rng.range(1, (200 / nstate).max(1));
         let nst = nstate * nlab;
-        let kind = idx % 5;
+        let kind = idx % 6;
         let proto = MeanVari(rng.uniform(0.2, 60.0), rng.log_uniform(1e-3, 400.0));
         let params: Vec<MeanVari> = (0..nst)
             .map(|_| match kind {
                 0 => proto, // identical Gaussians: every adjustment is an equal-cost tie
                 1 => MeanVari(rng.uniform(0.2, 3.0), rng.log_uniform(1e-3, 1.0)),
                 2 => MeanVari((rng.range(1, 30) as f64) + 0.5, rng.log_uniform(1e-3, 400.0)), // x.5 means
+                5 => MeanVari(rng.uniform(0.2, 1.45), rng.log_uniform(1e-3, 2.0)), // every state lasts one frame at speed 1
                 _ => MeanVari(rng.uniform(0.2, 60.0), rng.log_uniform(1e-3, 400.0)),
             })
             .collect();
@@ -65,7 +66,12 @@ pub fn run(ctx: &mut Ctx) {
         let f1: usize = d1.iter().sum();
         let mut pts: Vec<(f64, usize)> = Vec::new();
         let mut nontrivial = false;
-        for s in speeds(rng, f1) {
+        let mut sp = speeds(rng, f1);
+        // targets a little above one frame per state (n < target < 1.5 n)
+        for _ in 0..3 {
+            sp.push(f1 as f64 / (nst as f64 * rng.uniform(1.02, 1.5)));
+        }
+        for s in sp {
             let d = est.create(s);
             let total: usize = d.iter().sum();
             if d.len() != nst {
